@@ -65,9 +65,7 @@ def _paper_one(ctx, case, p, m, pre, post, x, i, first):
             return left_outer
         if n > m:
             # is some decision of this step within rounding distance of its threshold?
-            mg = []
-            p2lib.paper_step(dict(p=p, N=pre[0], q=list(pre[1]), n=[int(t) + 1 for t in pre[2]]), x, margins=mg)
-            if mg and min(mg) < 1e-9:
+            if p2lib.excusable(not ranks_ok, pre, p, x):
                 ctx.count('paper_ambiguous_under_rounding')
                 return left_outer
         ctx.fail('p2-differs-from-paper', 'after observation %d: implementation ranks %s heights %s, paper algorithm ranks %s heights %s' % (
